@@ -359,6 +359,12 @@ def recvmax(F, R):
             for body in d.bodies():
                 rel = [bi for bi, t, ap in d.inflight_calls(body, 'remove')]
                 crel = {bi for bi, t, ap in d.set_calls(body, 'remove', counted)}
+                # ... and the converse: the count is given back only together with the id (a QoS 2 publication keeps counting
+                # from PUBREC until its PUBREL is handled)
+                for x in sorted(crel):
+                    ok_c = bool(rel) and (any(r_ in body.dom.get(x, ()) for r_ in rel) or not (set(body.returns()) & body.reachable_after(x, avoid=set(rel))))
+                    R.ob('C12.recvmax', '%s|%s|count-released=>id-released' % (d.name, body.path.split('::')[-2] if '{closure' in body.path else body.path.split('::')[-1]), ok_c,
+                         'a publication stops counting against Receive Maximum on a path that keeps its packet id in flight (e.g. at PUBREC): the peer may have more than the announced number of unacknowledged QoS 2 publications accepted', body.loc(x))
                 for x in rel:
                     ok_rel = bool(crel) and (any(c_ in body.dom.get(x, ()) for c_ in crel) or not (set(body.returns()) & body.reachable_after(x, avoid=crel)))
                     R.ob('C12.recvmax', '%s|%s|id-released=>count-released' % (d.name, body.path.split('::')[-2] if '{closure' in body.path else body.path.split('::')[-1]), ok_rel,
